@@ -63,7 +63,24 @@ parameters = [["a", "", 2.0, [-10, 10], "", ""], ["b", "", 0.5, [-10, 10], "", "
 Iq = "return a*q + b;"
 '''
 
-WORKER = r'''
+HOOK = r'''
+# --- observation of how a name in the cache directory comes to exist (audit events of this interpreter): a library
+# --- name must be created by rename, never opened for writing in place (a copy is not atomic)
+import json as _json, os as _os, sys as _sys
+def _verif_audit(ev, args):
+    try:
+        if ev == "open" and isinstance(args[0], (str, bytes)) and isinstance(args[2], int) and args[2] & (_os.O_WRONLY | _os.O_RDWR):
+            path = _os.path.abspath(_os.fsdecode(args[0]))
+            cache = _os.path.abspath(_os.environ.get("SAS_DLL_PATH", "/nonexistent"))
+            if _os.path.dirname(path) == cache:
+                with open(_os.path.join(_os.environ["FAKECC_CTRL"], _os.environ.get("FAKECC_TAG", "x") + ".fsops"), "a") as f:
+                    f.write(_json.dumps(dict(pid=_os.getpid(), op="open-for-write", path=path)) + "\n")
+    except Exception:
+        pass
+_sys.addaudithook(_verif_audit)
+'''
+
+WORKER = HOOK + r'''
 import json, sys
 import numpy as np
 from sasmodels.core import load_model
@@ -76,7 +93,7 @@ EXPECT = [0.55, 0.85, 1.45]
 
 # A long-lived parent (a GUI, a fit server) that has already loaded SOME compiled model - so sasmodels.kerneldll is
 # imported - and then forks one worker per request; the workers load the not-yet-compiled probe model.
-FORKSERVER = r'''
+FORKSERVER = HOOK + r'''
 import json, os, sys, time
 import numpy as np
 ctrl = os.environ["FAKECC_CTRL"]
@@ -176,11 +193,39 @@ class World:
         self.procs = {}
         self.outputs_seen = set()
         self.output_of = {}
+        # every other world: the temporary directory (where the generated C file goes) on ANOTHER filesystem than
+        # the cache - a rename between the two is then impossible and anything "moved" across is copied
+        self.tmp = None
+        if idx % 2 == 1 and os.path.isdir("/dev/shm") and os.access("/dev/shm", os.W_OK) and os.stat("/dev/shm").st_dev != os.stat(self.cache).st_dev:
+            self.tmp = "/dev/shm/verif_c18_%d_%d" % (os.getpid(), idx)
+            shutil.rmtree(self.tmp, ignore_errors=True)
+            os.makedirs(self.tmp)
+
+    def cleanup(self):
+        shutil.rmtree(self.dir, ignore_errors=True)
+        if self.tmp:
+            shutil.rmtree(self.tmp, ignore_errors=True)
+
+    def inplace_writes(self, fname):
+        """audit records of the workers: opens for writing of the FINAL library name"""
+        out = []
+        for fn in sorted(os.listdir(self.ctrl)):
+            if fn.endswith(".fsops"):
+                for line in open(os.path.join(self.ctrl, fn)):
+                    try:
+                        d = json.loads(line)
+                    except ValueError:
+                        continue
+                    if os.path.basename(d["path"]) == fname:
+                        out.append(dict(d, worker=fn[:-6]))
+        return out
 
     def env(self, tag, scripted=True):
         e = dict(os.environ)
         e.update(PYTHONPATH=common.REPO, SAS_DLL_PATH=self.cache, FAKECC_CTRL=self.ctrl, FAKECC_TAG=tag,
                  PYTHONHASHSEED="0", SAS_OPENCL="none")
+        if self.tmp:
+            e["TMPDIR"] = self.tmp
         if scripted:
             e["CC"] = self.fakecc
         else:
@@ -393,10 +438,11 @@ def run_schedule(root, idx, sched, nproc, kill_kind="sigkill", fork=False):
         return dict(sched=list(sched), model_sched=model_sched, trace=trace, loaded=obs_loaded, killed=killed, kill_kind=kill_kind, aborted=aborted,
                     after_kill=after_kill, recover_ok=bool(r.result and r.result["ok"]), recover=r.result,
                     listing=listing, compiler_outputs=outputs, final_name=fname, results=results, forked_workers=fork,
-                    output_names={t: os.path.basename(v) for t, v in w.output_of.items()})
+                    output_names={t: os.path.basename(v) for t, v in w.output_of.items()},
+                    inplace_writes=w.inplace_writes(fname), tmp_other_filesystem=bool(w.tmp))
     finally:
         w.kill_all()
-        shutil.rmtree(w.dir, ignore_errors=True)
+        w.cleanup()
 
 
 def run_mixed(root, idx, order):
@@ -446,7 +492,7 @@ def run_mixed(root, idx, order):
         return dict(order="".join(order), results=results, after=after, listing=sorted(os.listdir(w.cache)))
     finally:
         w.kill_all()
-        shutil.rmtree(w.dir, ignore_errors=True)
+        w.cleanup()
 
 
 def all_schedules(nproc, steps=4):
@@ -547,6 +593,11 @@ def main(run):
         if len(set(outs_)) != len(outs_):
             run.add(Finding("C18:temp-name-shared", "schedule %s%s: two builders were given the same temporary output name %s (C18_shared_name_refuted: the protocol is then unsafe)" % (
                 o["sched"], " with forked workers" if o["forked_workers"] else "", sorted(x for x in set(outs_) if outs_.count(x) > 1)), desc))
+        stats["tmp_on_other_filesystem"] = stats.get("tmp_on_other_filesystem", 0) + int(o.get("tmp_other_filesystem", False))
+        if o.get("inplace_writes"):
+            run.add(Finding("C18:publish-writes-in-place", "schedule %s (temporary directory %s): the final cache name %s was opened for WRITING by %s - it is filled in place (a copy), not created by a rename: a loader arriving meanwhile, or a kill, sees a partial library" % (
+                o["sched"], "on another filesystem than the cache" if o.get("tmp_other_filesystem") else "on the cache's filesystem", o["final_name"],
+                sorted({x["worker"] for x in o["inplace_writes"]})), desc))
         if o["final_name"] in o["compiler_outputs"]:
             run.add(Finding("C18:compiles-in-place", "schedule %s: the compiler was told to write directly to the final cache name" % (o["sched"],), desc))
         if len(run.coverage["samples"]) < 5:
